@@ -128,6 +128,30 @@ static std::string handle(const std::vector<std::string>& a) {
     if (!spy.live.empty() || spy.misuse) out += " LEAK-OR-MISUSE";
     return out;
   }
+  // DSB <J|M> <j> <hex input> : deserialize into a fresh document whose allocator grants j pool blocks and refuses the later ones
+  // (strings and the pool table are granted): the slot budget is j * POOL_CAPACITY; prints code and document
+  if (a[0] == "DSB" && a.size() == 4) {
+    std::string input = unhex(a[3]);
+    SpyAllocator spy;
+    spy.sizeFail = detail::ResourceManager::slotSize * size_t(ARDUINOJSON_POOL_CAPACITY);
+    spy.sizeFailAfter = std::stol(a[2]);
+    std::string out;
+    {
+      JsonDocument doc(&spy);
+      auto NL = DeserializationOption::NestingLimit(50);
+      DeserializationError err = a[1] == "J" ? deserializeJson(doc, input.data(), input.size(), NL) : deserializeMsgPack(doc, input.data(), input.size(), NL);
+      out = std::string(codeName(err)) + " " + dump(doc.as<JsonVariantConst>());
+      if (err == DeserializationError::NoMemory && !doc.overflowed()) out += " NOT-FLAGGED";
+      if (err == DeserializationError::Ok && doc.overflowed()) out += " FLAGGED-THOUGH-OK";
+      std::string js; serializeJson(doc, js);                       // the partial document is a well-formed value
+      doc.clear();
+      spy.sizeFail = 0;
+      doc["reuse"] = 1;
+      if (doc["reuse"] != 1 || doc.overflowed()) out += " NOT-REUSABLE";
+    }
+    if (!spy.live.empty() || spy.misuse) out += " LEAK-OR-MISUSE";
+    return out + " cap=" + std::to_string(ARDUINOJSON_POOL_CAPACITY);
+  }
   // BIG <shape> <n> : a collection with n children built in linear time (maps through deserializeMsgPack, which does
   // not search for duplicate keys), serialized in both formats; prints for each: first 8 bytes, length, FNV-1a 64
   if (a[0] == "BIG" && a.size() == 3) {
